@@ -23,7 +23,8 @@ structure SigDef where
   tag : String
   typ : Typ
   ts : TsKind
-  /-- which record of the line the pattern describes: 0 whole line, 1 first, 2 last -/
+  /-- which record of the line the pattern describes: 0 whole line, 1 first, 2 last; 3 = an unanchored
+  pattern that matches a part of the line -/
   pos : Nat := 0
 deriving Repr
 
@@ -190,8 +191,32 @@ def recordOf (pos : Nat) (line : List Char) : Option (List Char) :=
   | 1 => some (firstRec line)
   | _ => lastRec line
 
+/-! ### patterns that match only a part of the line (`pos = 3`)
+
+`(?P<ts_now>)<tag>=(?P<scalar>[0-9]+)` (`delta` alike) and `(?P<ts_now>)<tag>=(?P<event>[a-z]+)`,
+unanchored: Go's leftmost-first search finds the first place where `<tag>=` is followed by at least
+one character of the class, and the group captures the longest run of the class there.  What the
+signal yields is the CAPTURED text (not the line with the match substituted). -/
+
+def isLow (c : Char) : Bool := 'a' ≤ c && c ≤ 'z'
+
+def valClass : Typ → Char → Bool
+  | .event => isLow
+  | _ => isDig
+
+def findTagged (pre : List Char) (isVal : Char → Bool) : List Char → Option (List Char)
+  | [] => none
+  | c :: cs =>
+    if (c :: cs).take pre.length == pre && (((c :: cs).drop pre.length).head?.map isVal).getD false then
+      some (((c :: cs).drop pre.length).takeWhile isVal)
+    else findTagged pre isVal cs
+
+def matchFree (sd : SigDef) (line : List Char) : Option (Option Stamp × List Char) :=
+  (findTagged (sd.tag.toList ++ ['=']) (valClass sd.typ) line).map fun v => (some Stamp.now, v)
+
 def matchSig (epoch : Rat) (sd : SigDef) (line : List Char) : Option (Option Stamp × List Char) :=
-  (recordOf sd.pos line).bind (matchRec epoch sd)
+  if sd.pos = 3 then matchFree sd line
+  else (recordOf sd.pos line).bind (matchRec epoch sd)
 
 /-! ## Specification: the data points a sequence of lines denotes (oracle and theorem RHS) -/
 
